@@ -395,6 +395,7 @@ func (x *X) instr(fr *frame, b *ssa.BasicBlock, in ssa.Instruction, only map[int
 		c := x.get(fr, in.Cond).(S).T
 		c = x.define("c", SBool, c)
 		if x.prune && x.st.cond != "false" {
+			x.externs["branches ruled out by the assumptions are dropped after an unsat answer of z3 5.1.0 (pruning) in "+x.curFn] = true
 			// a function under contract: branches its precondition rules out are not followed
 			switch {
 			case x.unreachable(and(x.st.cond, c)):
